@@ -337,23 +337,20 @@ def stripIdsO : Obj → Obj
   | (k, v) :: r => if k = idKey then stripIdsO r else (k, stripIds v) :: stripIdsO r
 end
 
-def quoteIdSuffix : Bytes := [34, 64, 105, 100]   -- `"@id`
-
-def isScalarIdLike : Json → Bool
-  | .num _ => true
-  | .str _ => true
-  | _ => false
-
 /-- does this member make the *textual* `idRegexp` removal produce broken JSON?
-    (`"@id"` with a string containing `"` or a number in exponent form; a key ending in
-    `"@id` whose value is a string or number) -/
+    (`"@id"` with a string containing `"`, whose encoding `\"` ends the regexp's lazy `".*"`
+    early.)  Two shapes are outside the model's domain because the textual removal yields
+    *valid but different* JSON, which a tree-level model cannot express: an `@id` number in
+    exponent form — `-?[0-9]+(\.[0-9]+)?` eats only the mantissa, `{"a":0.0001,"@id":1e+21}`
+    is loaded as `{"a":0.0001e+21}` (after anything but a plain number the load fails) — and
+    keys that contain `"@id`, inside which the regexp also fires (`{"q\"@id":1,"r":2}` is
+    loaded as `{"q\"r":2}`).  The driver answers `bad-op` for both. -/
 def memberBreaks (k : Bytes) (v : Json) : Bool :=
   if k = idKey then
     match v with
     | .str s => s.contains 34
-    | .num t => isExpForm t
     | _ => false
-  else (quoteIdSuffix.isSuffixOf k) && isScalarIdLike v
+  else false
 
 mutual
 def stripBreaks : Json → Bool
